@@ -246,7 +246,8 @@ Proof. destruct AuditExamplesB.C13.early_by_one as (A & B & C & D & E). repeat s
    Every theorem of this part carries 0 < tps, the domain of the constructor (WorkloadTrace.__init__ divides by
    ticks_per_second; for tps = 0 the model is totalised - tick length rnd (1/0) = 0, everything in call 0 - and says
    nothing about the code, audit C P5); the runner of kind 44 refuses tps <= 0
-   (C13_file_runner_refuses_nonpositive_tps). *)
+   (C13_file_runner_refuses_nonpositive_tps: a domain restriction of the runner - Python raises for tps = 0 only, not
+   for tps < 0 - and kind 44 is driven with tps >= 1 only). *)
 From Eudoxia Require Import Model.Types Model.Timing Model.Codec Model.Csv Model.CsvLazy Model.TraceFile Model.RunTraceFile
   Proofs.CsvLazyFacts Proofs.TraceFileFacts Proofs.AuditRepairFacts.
 Close Scope Q_scope.
@@ -386,9 +387,13 @@ Theorem C13_file_malformed_never_delivered : forall (rnd : Q -> Q) tps n rows e,
 Proof. exact AuditRepairFacts.FilePos.file_malformed_never_delivered. Qed.
 Print Assumptions C13_file_malformed_never_delivered.
 
-(* (d) outside that domain: a case of kind 44 is ticks_per_second, the number of calls, the rows; the runner - what the
-   correspondence check compares with the implementation - answers [-1] for tps <= 0 whatever follows, and for
-   0 < tps its answer is the [file_replay] the theorems above speak about (with where the refusal came out) *)
+(* (d) outside that domain: a case of kind 44 is ticks_per_second, the number of calls, the rows; the runner answers
+   [-1] for tps <= 0 whatever follows, and for 0 < tps its answer is the [file_replay] the theorems above speak
+   about (with where the refusal came out). The refusal is a DOMAIN RESTRICTION OF THE RUNNER, not a behaviour of
+   the code: Python raises only for tps = 0 (WorkloadTrace.__init__, workload.py:230, [1.0 / ticks_per_second]:
+   ZeroDivisionError); for tps < 0 it does NOT raise (the constructor returns with a negative tick length). The
+   correspondence check drives kind 44 with tps >= 1 only, so the [-1] of this theorem is never compared with the
+   implementation, and nothing is claimed here about what the code does for tps <= 0 (audit D, MINOR) *)
 Theorem C13_file_runner_refuses_nonpositive_tps : forall tps rest,
   (tps <= 0)%Z -> run_trace_file (tps :: rest) = bad_input.
 Proof. exact AuditRepairFacts.FilePos.run_trace_file_refuses_nonpositive_tps. Qed.
